@@ -664,7 +664,7 @@ def translate(text, tag='mod'):
         try:
             drt, _ = parse_type(dpre2)
             dts = [parse_type(strip_attrs(x.strip()))[0] for x in split_top(dpar) if x.strip() and x.strip() != '...']
-            if dn in ('calloc', 'malloc', 'free', 'abort', 'exit', 'realloc'):
+            if dn in ('calloc', 'malloc', 'free', 'abort', 'exit', 'realloc') and dn not in OPT['rename']:
                 continue   # provided by <stdlib.h>
             protos.append('%s %s(%s);' % (ctype(drt), gname(dn), ', '.join(ctype(t) for t in dts) or 'void'))
         except Unsupported as ex:
